@@ -2,6 +2,8 @@
 import JumanjiModel.Bridge.Json
 import JumanjiModel.Env.FlatPack.Model
 import JumanjiModel.Prim.Float
+import JumanjiModel.Env.FlatPack.Bounds
+import JumanjiModel.Bridge.PuzzleBounds
 open Lean Jb
 
 namespace Jb.FlatPack
@@ -99,7 +101,13 @@ def opInstance : Op := fun j => do
   let extra := if bc.byActions then [("solvable_by_actions", jBool (tilesByActions bc.cfg s))] else []
   pure (jObj (base ++ extra))
 
+/-- C01 bounds op: {"cfg"} → the proved interval of every observation leaf -/
+def opBounds : Op := fun j => do
+  let bc ← getCfg (← field j "cfg")
+  pure (jBoundsTable (obsBounds bc.cfg))
+
 def ops : List (String × Op) :=
   [("flat_pack.step", opStep), ("flat_pack.state", opState), ("flat_pack.judge", opJudge),
-   ("flat_pack.instance", opInstance)]
+   ("flat_pack.instance", opInstance),
+   ("flat_pack.bounds", opBounds)]
 end Jb.FlatPack
